@@ -293,6 +293,10 @@ def scorer_object_counting_run(rec, rng, G, n_thetas, budget, total):
                 sc_obj.score(plates=plates, distance_matrix=cdm, samples=holder, rng=np.random.default_rng(1), progress_bar=False)
             sc_obj.max_triples = budget
             rec.count("scorer_objects_with_reassigned_budget")
+        elif rng.random() < 0.4:
+            # the two documented parameters given by position, in their documented order (max_chunk, max_triples)
+            sc_obj = G.GaussianDBALScorer(int(rng.choice([1, 2, 50])), budget)
+            rec.count("scorer_objects_built_with_positional_arguments")
         else:
             sc_obj = G.GaussianDBALScorer(max_chunk=int(rng.choice([1, 2, 50])), max_triples=budget)
         res = sc_obj.score(plates=plates, distance_matrix=cdm, samples=holder, rng=np.random.default_rng(int(rng.integers(0, 2**31))), progress_bar=False)
